@@ -187,7 +187,10 @@ class NativeContract:
         env.update({k: v for k, v in args.items()})
         for kind, n, txt, code in self.pre_items:
             if kind == "ghost":
-                env[n] = eval(code, env)  # noqa: S307
+                try:
+                    env[n] = eval(code, env)  # noqa: S307
+                except Exception:  # noqa: BLE001
+                    env[n] = None  # contract terms are total in the prover; natively an undefined ghost is None
                 continue
             try:
                 ok = eval(code, env)  # noqa: S307
